@@ -83,9 +83,9 @@ theorem rnAndModify_run (unit : Nat) (step : StepValue) (dmod : Bool) (c : Core)
 /-! ## frame: nothing but `r[unit]` changes -/
 
 /-- `setRn` touches only the `r` array of the register file: every other component of the machine
-state (MIU, memory, access log, interrupt bookkeeping) and every other register is as before. -/
+state (bus: MIU, memory, peripherals; access and event logs; interrupt bookkeeping) and every other register is as before. -/
 theorem setRn_frame (c : Core) (unit : Nat) (v : U16) :
-    (setRn c unit v).miu = c.miu ∧ (setRn c unit v).mem = c.mem ∧ (setRn c unit v).log = c.log ∧
+    (setRn c unit v).bus = c.bus ∧ (setRn c unit v).events = c.events ∧ (setRn c unit v).log = c.log ∧
     (setRn c unit v).ipend = c.ipend ∧ (setRn c unit v).vpend = c.vpend ∧ (setRn c unit v).vctx = c.vctx ∧
     (setRn c unit v).vaddr = c.vaddr ∧ (setRn c unit v).idle = c.idle ∧
     (setRn c unit v).regs = { c.regs with r := (setRn c unit v).regs.r } :=
